@@ -6,6 +6,7 @@
 //!       [idx=..] [nlin=..] [nlout=..] [dirty=0|1]`
 //! ops: ks ks_assign auto auto_assign auto_add auto_add_assign auto_sub auto_sub_assign auto_subneg
 //!      auto_subneg_assign trace trace_assign lwe_ks glwe_to_lwe lwe_to_glwe extract
+//!      pack packer   (`slots=<i,j,…>` `lgap=<log_gap_out | log_batch>`; `a=<slot:ct@slot:ct…>`)
 //!
 //! Answer line: `id ok skin=<polys> skout=<polys> keys=<p:GGLWE@p:GGLWE…> a=<ct> res=<ct>` or `id panic:<class>`.
 //! Text forms: polynomial = coefficients joined by `,`; column = limbs joined by `|`; ciphertext =
@@ -22,7 +23,7 @@ use std::io::{BufRead, Write};
 
 use poulpy_core::{
     EncryptionLayout, GLWEAutomorphism, GLWEAutomorphismKeyEncryptSk, GLWEEncryptSk, GLWEFromLWE, GLWEKeyswitch,
-    GLWESwitchingKeyEncryptSk, GLWEToLWESwitchingKeyEncryptSk, GLWETrace, LWEEncryptSk, LWEFromGLWE, LWEKeySwitch, LWESampleExtract,
+    GLWEPacker, GLWEPacking, GLWESwitchingKeyEncryptSk, GLWEToLWESwitchingKeyEncryptSk, GLWETrace, glwe_packer_add, glwe_packer_flush, LWEEncryptSk, LWEFromGLWE, LWEKeySwitch, LWESampleExtract,
     LWESwitchingKeyEncrypt, LWEToGLWESwitchingKeyEncryptSk,
     layouts::{
         Base2K, Degree, Dnum, Dsize, GGLWEInfos, GGLWEToRef, GLWE, GLWEAutomorphismKey, GLWEAutomorphismKeyLayout,
@@ -65,6 +66,8 @@ pub struct Case {
     pub nlin: usize,
     pub nlout: usize,
     pub dirty: bool,
+    pub slots: Vec<usize>,
+    pub lgap: usize,
 }
 
 fn parse_case(toks: &[&str]) -> Case {
@@ -97,6 +100,8 @@ fn parse_case(toks: &[&str]) -> Case {
         nlin: us("nlin", 4),
         nlout: us("nlout", 4),
         dirty: us("dirty", 0) != 0,
+        slots: m.get("slots").map(|v| if *v == "-" { vec![] } else { v.split(',').map(|x| x.parse::<usize>().unwrap()).collect() }).unwrap_or_default(),
+        lgap: us("lgap", 0),
     }
 }
 
@@ -345,6 +350,89 @@ macro_rules! ks_backend {
                     }
                     let s = fmt_secret(&secret_twin(n, rank, seed32(c.seed, 0)));
                     format!("ok skin={} skout={} keys={} a={} res={}", s, s, keys_txt.join("@"), a_txt, fmt_vec(res.data()))
+                }
+                "pack" | "packer" => {
+                    // ring packing: `slots` = indices of the present inputs (pack: keys of the HashMap; packer: arrival
+                    // positions, the others are `None`); `lgap` = log_gap_out (pack) / log_batch (packer)
+                    let rank = c.rin;
+                    let mut sk = GLWESecret::alloc(Degree(n as u32), Rank(rank as u32));
+                    sk.fill_ternary_prob(0.5, &mut Source::new(seed32(c.seed, 0)));
+                    let key_infos = EncryptionLayout::new_from_default_sigma(GLWEAutomorphismKeyLayout {
+                        n: Degree(n as u32),
+                        base2k: Base2K(c.bkey as u32),
+                        k: TorusPrecision(c.kkey as u32),
+                        rank: Rank(rank as u32),
+                        dnum: Dnum(c.dnum as u32),
+                        dsize: Dsize(c.dsize as u32),
+                    })
+                    .unwrap();
+                    let gal_els: Vec<i64> = module.glwe_pack_galois_elements();
+                    let mut keys: HashMap<i64, GLWEAutomorphismKeyPrepared<DeviceBuf<BE>, BE>> = HashMap::new();
+                    let mut keys_txt = Vec::new();
+                    for g in gal_els.iter() {
+                        let mut atk: GLWEAutomorphismKey<Vec<u8>> = GLWEAutomorphismKey::alloc_from_infos(&key_infos);
+                        module.glwe_automorphism_key_encrypt_sk(&mut atk, *g, &sk, &key_infos, &mut source_xe, &mut source_xa, scratch.borrow());
+                        let mut kp: GLWEAutomorphismKeyPrepared<DeviceBuf<BE>, BE> = module.glwe_automorphism_key_prepared_alloc_from_infos(&atk);
+                        module.glwe_automorphism_key_prepare(&mut kp, &atk, scratch.borrow());
+                        keys_txt.push(format!("{}:{}", g, fmt_gglwe(&atk)));
+                        keys.insert(*g, kp);
+                    }
+                    let mut cts: Vec<GLWE<Vec<u8>>> = Vec::new();
+                    let mut as_txt = Vec::new();
+                    for (k, slot) in c.slots.iter().enumerate() {
+                        let mut a: GLWE<Vec<u8>> = GLWE::alloc_from_infos(&glwe_in_infos);
+                        if c.cls == "enc" {
+                            let enc = EncryptionLayout::new_from_default_sigma(glwe_in_infos).unwrap();
+                            let mut pt: GLWEPlaintext<Vec<u8>> = GLWEPlaintext::alloc_from_infos(&glwe_in_infos);
+                            fill_class(&mut pt.data, c.bin, "rnd", c.seed ^ 0x77 ^ ((k as u64) << 20));
+                            let mut skp: GLWESecretPrepared<DeviceBuf<BE>, BE> = module.glwe_secret_prepared_alloc(Rank(rank as u32));
+                            module.glwe_secret_prepare(&mut skp, &sk);
+                            module.glwe_encrypt_sk(&mut a, &pt, &skp, &enc, &mut source_xe, &mut source_xa, scratch.borrow());
+                        } else {
+                            fill_class(a.data_mut(), c.bin, &c.cls, c.seed ^ ((k as u64 + 1) << 24));
+                        }
+                        as_txt.push(format!("{}:{}", slot, fmt_vec(a.data())));
+                        cts.push(a);
+                    }
+                    let mut res: GLWE<Vec<u8>> = GLWE::alloc_from_infos(&glwe_out_infos);
+                    garbage(res.data_mut());
+                    dirty(&mut scratch);
+                    // the inputs are dumped even when the operation panics (e.g. no input on a slot): `res=panic:<class>`
+                    let r = std::panic::catch_unwind(std::panic::AssertUnwindSafe(|| {
+                        if c.op == "pack" {
+                            let mut map: HashMap<usize, &mut GLWE<Vec<u8>>> = HashMap::new();
+                            for (ct, slot) in cts.iter_mut().zip(c.slots.iter()) {
+                                map.insert(*slot, ct);
+                            }
+                            module.glwe_pack(&mut res, map, c.lgap, &keys, scratch.borrow());
+                        } else {
+                            // the accumulators have the layout of the result
+                            let mut packer = GLWEPacker::alloc(&glwe_out_infos, c.lgap);
+                            let total = n >> c.lgap;
+                            for k in 0..total {
+                                match c.slots.iter().position(|x| *x == k) {
+                                    Some(idx) => glwe_packer_add(&module, &mut packer, Some(&cts[idx]), &keys, scratch.borrow()),
+                                    None => glwe_packer_add(&module, &mut packer, None::<&GLWE<Vec<u8>>>, &keys, scratch.borrow()),
+                                }
+                            }
+                            glwe_packer_flush(&module, &mut packer, &mut res, scratch.borrow());
+                        }
+                    }));
+                    let res_txt = match r {
+                        Ok(()) => fmt_vec(res.data()),
+                        Err(e) => {
+                            let msg = if let Some(s) = e.downcast_ref::<String>() {
+                                s.clone()
+                            } else if let Some(s) = e.downcast_ref::<&str>() {
+                                s.to_string()
+                            } else {
+                                String::new()
+                            };
+                            format!("panic:{}", panic_class(&msg))
+                        }
+                    };
+                    let s = fmt_secret(&secret_twin(n, rank, seed32(c.seed, 0)));
+                    format!("ok skin={} skout={} keys={} a={} res={}", s, s, keys_txt.join("@"), as_txt.join("@"), res_txt)
                 }
                 "lwe_ks" => {
                     let mut sk_in = LWESecret::alloc(Degree(c.nlin as u32));
